@@ -5,6 +5,9 @@ pid="$1"; pidl=$(echo "$pid" | tr 'C' 'c')
 python3 - "$pid" "$pidl" "$2" <<'PY'
 import sys
 pid,pidl,missed=sys.argv[1:4]
-t=open('/verif/tools/strengthen_prompt.txt').read().format(pid=pid,pidl=pidl,missed=missed)
+import os,re
+ms=sorted([d.split('-')[1] for d in os.listdir('/verif/seeded') if d.startswith(pid+'-m')], key=lambda x:int(x[1:]))
+new=' '.join(sorted({x.split('-')[1] for x in re.findall(r'C\d+-m\d+', missed)}, key=lambda x:int(x[1:])))
+t=open('/verif/tools/strengthen_prompt.txt').read().format(pid=pid,pidl=pidl,missed=missed,new=new,allm=' '.join(ms))
 open('/root/strengthen/%s.txt'%pid,'w').write(t)
 PY
